@@ -701,6 +701,14 @@ func (e *Engine) storeComps(l *Loc, out map[string]bool) {
 }
 
 // objComps lists (component, index) pairs holding the scalar state of the object at l, nested structs included.
+// leafType remembers the Go type stored in a component (for the type invariants of havoced entries).
+func (e *Engine) noteLeaf(comp string, t types.Type) {
+	if e.leafT == nil {
+		e.leafT = map[string]types.Type{}
+	}
+	e.leafT[comp] = t
+}
+
 func (e *Engine) objComps(l *Loc, out *[][2]string) {
 	switch u := under(l.T).(type) {
 	case *types.Slice:
@@ -708,6 +716,10 @@ func (e *Engine) objComps(l *Loc, out *[][2]string) {
 		if len(idx) == 1 {
 			for _, s := range []string{".b", ".o", ".l", ".c"} {
 				*out = append(*out, [2]string{name + s, idx[0]})
+				e.noteLeaf(name+s, types.Typ[types.Int])
+				if _, ok := e.comps[name+s]; !ok {
+					e.comps[name+s] = "(Array Int Int)"
+				}
 			}
 		}
 		return
@@ -722,6 +734,14 @@ func (e *Engine) objComps(l *Loc, out *[][2]string) {
 	name, idx := e.compName(l)
 	if len(idx) == 1 {
 		*out = append(*out, [2]string{name, idx[0]})
+		e.noteLeaf(name, l.T)
+		if _, ok := e.comps[name]; !ok {
+			so := sortOf(l.T)
+			if so == "" {
+				so = "Int"
+			}
+			e.comps[name] = fmt.Sprintf("(Array Int %s)", so)
+		}
 	}
 }
 
@@ -891,6 +911,7 @@ func (e *Engine) mergeHeaps(conds []string, hs []*Heap) *Heap {
 			continue
 		}
 		out.m[k] = e.define("Hm."+k, e.comps[k], iteChain(conds, ts))
+		e.mergeDefs[out.m[k]] = append([]string{}, ts...)
 	}
 	return out
 }
